@@ -62,6 +62,10 @@ Proof. intros H s Hs. cbn. eauto. Qed.
 Lemma h_put_ks (P : fsT -> Prop) k (E : fsT -> Prop) : hoare P (put_ks k) (fun _ g => P g) E.
 Proof. intros s Hs. cbn. auto. Qed.
 
+Lemma h_put_ks_gen (P : fsT -> Prop) k (Q : unit -> fsT -> Prop) (E : fsT -> Prop) :
+  (forall g, P g -> Q tt g) -> hoare P (put_ks k) Q E.
+Proof. intros H s Hs. cbn. auto. Qed.
+
 (* a mutating primitive: skipped (pretend), refused (fault plan) or applied *)
 Lemma h_mutate (P : fsT -> Prop) e o act (Q : unit -> fsT -> Prop) (E : fsT -> Prop) :
   (forall g, P g -> E g) -> (forall g, P g -> Q tt g) -> hoare P act Q E ->
